@@ -306,9 +306,25 @@ func propSetTimeRangeSeq(args []string) string {
 			add(time.Unix(0, pw.start))
 			add(time.Unix(0, pw.end-1))
 		}
+		// the condition read directly (AND / OR / parentheses over exact time comparisons and
+		// EvalBool of the other predicates), without going through ConditionExpr
+		newLeaves := map[influxql.Expr]*condLeaf{}
+		direct := condTimeLeaves(c, strNow, true, nil, newLeaves)
 		for _, m := range assignments {
 			residual := res == nil || evalBoolCalls(res, m)
 			nt := orig == nil || nonTimeHolds(orig, m)
+			if direct {
+				condLeafEval = evalBoolCalls
+				for _, t := range points {
+					want := !t.Before(start) && t.Before(end) && nt
+					got := condHolds(c, t, m, newLeaves)
+					if want != got {
+						condLeafEval = evalBoolIFD
+						return fmt.Sprintf("direct: after call %d (window [%d,%d)) on %q the condition is %q: at time %d with %v it holds=%v, window and non-time part give %v", i+1, w.start, w.end, text, c.String(), t.UnixNano(), m, got, want)
+					}
+				}
+				condLeafEval = evalBoolIFD
+			}
 			for _, t := range points {
 				want := !t.Before(start) && t.Before(end) && nt
 				got := inRange(t) && residual
@@ -383,6 +399,10 @@ func knownSetTimeRangeSeq(args []string) string {
 	if be, ok := rew.(*influxql.BinaryExpr); ok && be.Op == influxql.OR {
 		return "C18-top-level-or-captures-the-window"
 	}
+	// the condition itself does not survive print -> parse (printing defects recorded under C02/C03)
+	if re, err := parseExprWith(cond.String(), nil); err != nil || !exprEqual(re, cond) {
+		return "C18-condition-does-not-reparse"
+	}
 	return ""
 }
 
@@ -456,7 +476,7 @@ func genSetTimeRangeSeq(r *rand.Rand, n int, emit func(args ...string)) {
 		"host = 'a' OR host = 'b'", "host = 'a' OR host = 'b' AND time > 5", "(host = 'a' OR host = 'b') AND time > 5", "(host = 'a' OR host = 'b')", "time > 5 OR host = 'a'",
 		"time + 1 > 5 AND host = 'a'", "host = 'a' AND time::integer > 5", "false AND time > 5", "true", "false", "true AND time > 5", "1 = 1 AND time > 5",
 		"host = 'time'", "'time' = host", "\"time\" > 5", "(time > 5)", "((time > 5 AND host = 'a'))", "(time > 5) AND (host = 'a')", "host =~ /a/ AND time > 5", "host !~ /a\\/b/",
-		"b / -a > 1 AND time > 5", "-a > 1", "host = 'a' AND", "time >", "\"a b\" = 1 AND time > 5", "value > 1.5", "value > -1.5 AND time >= '2000-01-01'", "n = 10s AND time > 5",
+		"b / -a > 1 AND time > 5", "-a > 1", "n % -a > 1", "host = 'a' AND", "time >", "\"a b\" = 1 AND time > 5", "value > 1.5", "value > -1.5 AND time >= '2000-01-01'", "n = 10s AND time > 5",
 		"time = 5", "time > 5 AND time > 5 AND time > 5", "time > 'abc'", "time > '2300-01-01'", "time != 5", "time =~ /x/", "time > 5 AND region != 'it\\'s'",
 	}
 	for _, s := range corpus {
